@@ -61,6 +61,13 @@ HOST_BREAKERS = _re0.compile(rb'[\x00-\x20\x7f/?#@\\]')
 
 
 def cases(rng, tier):
+	# every target form x Host present / absent x protocol x method, deterministically (the random part below reaches a given
+	# combination of absent Host, authority form and protocol only now and then)
+	for t in (b'other.example:99', b'[2001:db8::1]:443', b'192.0.2.7:3128', b'other.example', b'/', b'/p?q', b'*', b'http://example.com/x', b'https://example.com:8443/', b'http://u@example.com/'):
+		for hst in (None, b'h', b'h:81', b'other.example:99'):
+			for ver in (b'1.0', b'1.1'):
+				for mth in (b'CONNECT', b'GET', b'OPTIONS', b'POST'):
+					yield ('t', t, hst, ver, mth)
 	yield ('t', b'/a/../b', b'h', b'1.1')
 	yield ('t', b'/%2e%2e/x', b'h', b'1.1')
 	yield ('t', b'/a/%c0%ae%c0%ae/b', b'h', b'1.1')
@@ -236,6 +243,8 @@ def oracle(case):
 		else:
 			if (u.host, u.port) != (u'localhost', 80) and not case[1].lower().startswith((b'http://', b'https://')):
 				bad.append('host/port %r:%r are not the configured defaults' % (u.host, u.port))
+			if case[3] == b'1.1':
+				bad.append('an HTTP/1.1 request without a Host field was delivered (the protocol does not allow the field to be absent)')
 		if bad:
 			import re as _re
 			fid = 'F36' if case[2] is None and _re.match(rb'^[A-Za-z][A-Za-z0-9+.-]*:(?!//)', case[1]) else None
